@@ -57,7 +57,8 @@ else:
 XPATH_NSDICT = dict(xop=NS_XOP)
 
 
-def _join_attachment(ns_soap_env, href_id, envelope, payload, prefix=True):
+def _join_attachment(ns_soap_env, href_id, envelope, payload, prefix=True,
+                                                                   parser=None):
     """Places the data from an attachment back into a SOAP message, replacing
     its xop:Include element or href.
 
@@ -72,7 +73,12 @@ def _join_attachment(ns_soap_env, href_id, envelope, payload, prefix=True):
     """
 
     # grab the XML element of the message in the SOAP body
-    soaptree = etree.fromstring(envelope)
+    # (with the parser the protocol reads requests with: never lxml's default)
+    try:
+        soaptree = etree.fromstring(envelope, parser)
+    except (etree.XMLSyntaxError, ValueError) as e:
+        raise ValidationError(None, "Invalid SOAP part: %s" % (e,))
+
     soapbody = soaptree.find("{%s}Body" % ns_soap_env)
 
     if soapbody is None:
@@ -84,6 +90,9 @@ def _join_attachment(ns_soap_env, href_id, envelope, payload, prefix=True):
             message = child
             break
 
+    if message is None:
+        raise ValidationError(None, "SOAP Body has no message")
+
     idprefix = ''
 
     if prefix:
@@ -91,9 +100,10 @@ def _join_attachment(ns_soap_env, href_id, envelope, payload, prefix=True):
     href_id = "%s%s" % (idprefix, href_id,)
 
     num = 0
-    xpath = ".//xop:Include[@href=\"{}\"]".format(href_id)
+    xpath = ".//xop:Include[@href=$href]"
 
-    for num, node in enumerate(message.xpath(xpath, namespaces=XPATH_NSDICT)):
+    for num, node in enumerate(message.xpath(xpath, href=href_id,
+                                                      namespaces=XPATH_NSDICT)):
         parent = node.getparent()
         parent.remove(node)
         parent.text = payload
@@ -101,7 +111,7 @@ def _join_attachment(ns_soap_env, href_id, envelope, payload, prefix=True):
     return etree.tostring(soaptree), num
 
 
-def collapse_swa(ctx, content_type, ns_soap_env):
+def collapse_swa(ctx, content_type, ns_soap_env, parser=None):
     """
     Translates an SwA multipart/related message into an application/soap+xml
     message.
@@ -141,11 +151,16 @@ def collapse_swa(ctx, content_type, ns_soap_env):
 
     # What an ugly hack...
     request = MIMEMultipart('related', boundary=boundary)
-    msg_string = re.sub(r"\n\n.*", '', request.as_string())
-    msg_string = chain(
-        (msg_string.encode(charset), generator.NL.encode('ascii')),
-        (e for e in envelope),
-    )
+    try:
+        msg_string = re.sub(r"\n\n.*", '', request.as_string())
+        msg_string = chain(
+            (msg_string.encode(charset), generator.NL.encode('ascii')),
+            (e for e in envelope),
+        )
+
+    except (LookupError, UnicodeError, ValueError) as e:
+        # unknown charset, boundary not text in it, boundary with line breaks
+        raise ValidationError(None, "Invalid Content-Type header: %s" % (e,))
 
     msg_string = b''.join(msg_string)
     msg = message_from_bytes(msg_string)  # our message
@@ -173,20 +188,23 @@ def collapse_swa(ctx, content_type, ns_soap_env):
         else:
             payload = part.get_payload()
 
-        cid = part.get("Content-ID").strip("<>")
+        cid = (part.get("Content-ID") or '').strip("<>")
         cloc = part.get("Content-Location")
         numreplaces = None
 
         # Check for Content-ID and make replacement
+        if soapmsg is None:
+            raise ValidationError(None, "The SOAP part must come first")
+
         if cid:
             soapmsg, numreplaces = _join_attachment(
-                                             ns_soap_env, cid, soapmsg, payload)
+                              ns_soap_env, cid, soapmsg, payload, parser=parser)
 
         # Check for Content-Location and make replacement
         if cloc and not cid and not numreplaces:
             soapmsg, numreplaces = _join_attachment(
                                             ns_soap_env, cloc, soapmsg, payload,
-                                                                          False)
+                                                           False, parser=parser)
 
     if soapmsg is None:
         raise ValidationError(None, "Invalid MtoM request")
